@@ -96,13 +96,14 @@ type c10State struct {
 	depth int // events after the scenario root
 	ticks int
 	hist  []string
+	dead  bool // scenario root could not be prepared (after a violation): not expanded
 }
 
 func (s *c10State) clone() *c10State {
 	if s.scen == "" {
 		return &c10State{}
 	}
-	return &c10State{scen: s.scen, fx: s.fx, e: s.e.Clone(), o: s.o, ref: s.ref.clone(), depth: s.depth, ticks: s.ticks,
+	return &c10State{scen: s.scen, fx: s.fx, e: s.e.Clone(), o: s.o, ref: s.ref.clone(), depth: s.depth, ticks: s.ticks, dead: s.dead,
 		hist: append(make([]string, 0, len(s.hist)+1), s.hist...)}
 }
 
@@ -497,6 +498,9 @@ func (y *c10Sys) c10Transition(s *c10State, st *c10Step) []c10Viol {
 		if dappOut > 0 {
 			y.r.Class("settle:dapp-paid")
 		}
+		if inflow.Sign() > 0 {
+			y.r.Class("settle:unbound-share-arrived")
+		}
 		if credits.Sign() > 0 && credits.Cmp(income) < 0 {
 			y.r.Class("settle:rounding-remainder-kept")
 		}
@@ -622,6 +626,9 @@ func (y *c10Sys) menu(s *c10State) []string {
 	add(wide && item("P9") != nil && item("P9").Status != governance.BlackStatus, "black:P9")
 	add(wide && item("P1") != nil && item("P1").Status != governance.BlackStatus, "black:P1")
 	add(wide && item("P8") != nil, "black!:P8")
+	add(wide && item("P8") != nil, "approve:P8")
+	add(wide && item("P8") != nil, "reject:P8")
+	add(wide && item("P8") != nil, "unreg:P8")
 	add(o.Black["P8"] && (wide || c11), "white:P8")
 	add(wide && o.Black["P1"], "white:P1")
 	if c11 || wide {
@@ -673,7 +680,13 @@ func (y *c10Sys) menu(s *c10State) []string {
 		add(true, "dapp:30")
 		add(wide, "dapp:100")
 		add(wide, "dapp:0")
+		add(wide, "dapp:30:8") // only 8 nodes share
+		add(wide, "income:400000000000000000") // 4*10^8 ONG: products with percentages pass 2^64
+		add(wide, "gp:100:0:5")
+		add(wide, "gp:0:100:5")
+		add(wide, "cfg:8")
 	}
+	add(wide && c11, "gp:50:50:100") // whole authorised stake is penalised
 	add(true, "commit")
 	add(wide, "commit:any")
 	add(wide, "commit:cycle")
@@ -684,18 +697,25 @@ func (y *c10Sys) menu(s *c10State) []string {
 // -------------------------------------------------------------- scenarios
 
 func c10Scenarios(prop string, thorough bool) []c10Scenario {
+	cat := func(a []string, b ...string) []string { return append(append([]string{}, a...), b...) }
+	// S1: two candidate nodes registered (P8 stays a candidate node, P9 enters
+	// consensus), fee percentages set and old enough to be in force, dapp share on
 	s1 := []string{"reg:P8:10000", "max:P8:100000", "cost:P8:50:20", "reg:P9:20000", "max:P9:100000", "cost:P9:10:90", "gas:set", "dapp:30", "commit", "commit"}
-	s2 := append(append([]string{}, s1...), "auth:A1:P8:1000", "auth:A2:P8:500", "auth:A1:P9:500", "commit", "income:1000000007")
-	s3 := append(append([]string{}, s2...), "unauth:A1:P8:500", "unauth:A1:P9:500", "addinit:P9:1000", "redinit:P9:500", "commit", "auth:A2:P8:500")
+	// S2: authorizations on both nodes that have been through two settlements
+	s2 := cat(s1, "auth:A1:P8:1000", "auth:A2:P8:500", "auth:A1:P9:500", "commit", "income:1000000007", "commit", "income:1000000007")
+	// S3: withdrawals in every stage of the freeze pipeline
+	s3 := cat(s2, "unauth:A1:P8:500", "unauth:A1:P9:500", "addinit:P9:1000", "redinit:P9:500", "commit", "wd:A1:P8:all", "auth:A2:P8:500")
+	// S4: a blacklisted node with authorizers, settled (penalty stake held)
+	s4 := cat(s2, "black:P8", "commit")
 	out := []c10Scenario{{"F/S0", "F", nil}, {"F/S1", "F", s1}, {"F/S2", "F", s2}}
 	if prop == "C11" {
-		out = append(out, c10Scenario{"F/S3", "F", s3})
+		out = append(out, c10Scenario{"F/S3", "F", s3}, c10Scenario{"F/S4", "F", s4})
 		out = append(out, c10Scenario{"U/S0", "U", nil}, c10Scenario{"U/S2", "U", s2})
 		// Z: the first settlement with any stake divides by a zero stake (see the
 		// report / C12); the scenario stays within one epoch
 		out = append(out, c10Scenario{"Z/S0", "Z", nil}, c10Scenario{"Z/S1", "Z", []string{"reg:P8:10000", "max:P8:100000", "auth:A1:P8:1000", "unauth:A1:P8:500"}})
 	} else if thorough {
-		out = append(out, c10Scenario{"F/S3", "F", s3})
+		out = append(out, c10Scenario{"F/S3", "F", s3}, c10Scenario{"F/S4", "F", s4})
 	}
 	return out
 }
@@ -717,15 +737,25 @@ func (y *c10Sys) open(sc c10Scenario) (*c10State, []c10Viol) {
 	s := &c10State{scen: sc.name, fx: fx, e: fx.root.Clone(), ref: c11NewRef()}
 	s.o = c10Observe(fx, s.e)
 	vs := y.check(s)
+	tagged := func(ev string, in []c10Viol) []c10Viol {
+		for i := range in {
+			in[i].detail = "while the scenario root is prepared, after step " + ev + ": " + in[i].detail
+		}
+		return in
+	}
 	for _, ev := range sc.prep {
 		st, v := y.step(s, ev)
+		if !st.ok && len(vs) > 0 {
+			s.dead = true // a violation was already seen; the rest of the preparation makes no sense
+			break
+		}
 		y.r.Need(st.ok, "scenario %s: preparation step %s refused: %s", sc.name, ev, st.err)
-		vs = append(vs, v...)
-		vs = append(vs, y.check(s)...)
+		vs = append(vs, tagged(ev, v)...)
+		vs = append(vs, tagged(ev, y.check(s))...)
 	}
-	y.report(s, vs)
 	s.depth = 0
-	s.hist = nil
+	s.hist = nil // the replayable case of a root violation is the scenario itself
+	y.report(s, vs)
 	y.roots[sc.name] = s
 	y.rootV[sc.name] = vs
 	return s.clone(), vs
@@ -746,6 +776,9 @@ func (y *c10Sys) config(depth int) xs.Config {
 					out = append(out, "S:"+sc.name)
 				}
 				return out
+			}
+			if s.dead {
+				return nil
 			}
 			evs := y.menu(s)
 			if s.depth == 0 && !y.replay() { // shard on (scenario, first event)
@@ -815,7 +848,6 @@ func c10Run(t *testing.T, prop, unit string) {
 		}
 	}()
 	y.scens = c10Scenarios(prop, r.Thorough())
-	depth := r.Pick(3, 4)
 	var rc struct {
 		History []string `json:"history"`
 	}
@@ -836,28 +868,46 @@ func c10Run(t *testing.T, prop, unit string) {
 		}
 		return
 	}
-	st := xs.Run(r, y.config(depth))
-	for d, n := range st.PerDepth {
-		r.Add(fmt.Sprintf("new_states_at_depth_%d", d), n)
+	type phase struct {
+		wide  bool
+		depth int
 	}
-	r.Sample(map[string]interface{}{"scenario_roots": len(y.scens), "depth_after_root": depth, "menu": map[bool]string{false: "pruned (quick)", true: "wide (thorough)"}[y.wide]})
-	c10Describe(y, depth)
+	phases := []phase{{false, 3}}
+	if r.Thorough() {
+		phases = []phase{{true, 3}, {false, 5}}
+		if prop == "C10" {
+			phases = []phase{{true, 3}, {false, 6}} // fee percentages need three settlements to take effect
+		}
+	}
+	var desc []string
+	for _, ph := range phases {
+		if r.Expired() {
+			break
+		}
+		y.wide = ph.wide
+		st := xs.Run(r, y.config(ph.depth))
+		name := map[bool]string{false: "pruned", true: "wide"}[ph.wide]
+		for d, n := range st.PerDepth {
+			// depth 0 = the unopened root, depth 1 = the scenario roots
+			r.Add(fmt.Sprintf("new_states.%s_menu.depth_%d", name, d-1), n)
+		}
+		desc = append(desc, fmt.Sprintf("%s menu to depth %d", name, ph.depth))
+		r.Sample(map[string]interface{}{"phase": name, "scenario_roots": len(y.scens), "depth_after_root": ph.depth, "states_this_shard": st.States, "per_depth": st.PerDepth})
+	}
+	c10Describe(y, strings.Join(desc, " and "))
 }
 
 func TestVerif_C10(t *testing.T) { c10Run(t, "C10", "split") }
 func TestVerif_C11(t *testing.T) { c10Run(t, "C11", "stake") }
 
-func c10Describe(y *c10Sys, depth int) {
+func c10Describe(y *c10Sys, depth string) {
 	r := y.r
 	var names []string
 	for _, sc := range y.scens {
 		names = append(names, sc.name)
 	}
-	menu := "pruned menu (ops relevant to the property, one amount each)"
-	if y.wide {
-		menu = "wide menu (all governance ops, several amounts, duplicate-entry lists, wrong-witness variants, non-admin/cycle commit, time ticks)"
-	}
-	r.Bound(fmt.Sprintf("7 genesis peers (K=7) + 2 candidate nodes, 2 owners, 2 authorizers, admin, dapp address; scenario roots %s (fixture/prepared history, all reached through real calls from a 7-peer VBFT genesis and six commitDpos); BFS depth %d after each root; %s",
+	menu := "pruned menu = ops relevant to the property, one amount each; wide menu = all governance ops, several amounts, duplicate-entry lists, wrong-witness variants, non-admin/cycle commit, time ticks"
+	r.Bound(fmt.Sprintf("7 genesis peers (K=7) + 2 candidate nodes, 2 owners, 2 authorizers, admin, dapp address; scenario roots %s (fixture/prepared history, all reached through real calls from a 7-peer VBFT genesis and six commitDpos); BFS after each root: %s; %s",
 		strings.Join(names, ","), depth, menu))
 	if y.prop == "C10" {
 		r.Rule("state = canonical dump of governance+ONT+ONG storage (last-commit height/tx-hash reduced to its relation to the block height) ; transition = one real native call ; across every transition that changes the view (commitDpos or blackNode of a consensus node, view>6): income := ONG balance before - credits owed before + ONG arrived during the call, credits := sum of increases of SplitFeeAddress.Amount + ONG paid to the gas address; demanded: no credit decreases, each credit <= income, credits <= income; in every state: sum of credits <= ONG balance; for every distinct (credits, splitFee, balance) all credited addresses withdrawFee one after the other and receive exactly their credit; classes = event x ok/refused, settlement shapes")
@@ -868,7 +918,16 @@ func c10Describe(y *c10Sys, depth int) {
 		r.Assume("fixture U: InitConfig records genesis InitPos as stake without ONT moving; demanded there: the difference is the same constant in every state, and the withdraw bound is not applied to genesis owners")
 		r.Assume("fixture F: the genesis peers' stake is paid into governance by a plain ONT transfer before the first commitDpos")
 	}
-	if y.isReplay || r.R.NShards != 1 {
+	// non-vacuity: facts every shard sees while it builds the scenario roots
+	if y.isReplay || r.R.NViolations > 0 || r.R.CapHit {
 		return
 	}
+	need := []string{"settle:credited", "settle:node-owner-credited", "settle:authorizer-credited", "settle:candidate-node-credited", "settle:dapp-paid", "all-credited-addresses-withdrew"}
+	if y.prop == "C11" {
+		need = []string{"withdraw:paid", "state:frozen-withdrawal-pending", "state:unfrozen-stake-present", "state:penalty-stake-held", "epoch:peer-left-pool"}
+	}
+	for _, c := range need {
+		r.Need(r.R.Classes[c] > 0, "outcome class %q never observed", c)
+	}
+	r.Need(r.R.Transitions > 0 && r.R.States > 1, "nothing explored")
 }
